@@ -113,6 +113,28 @@ Proof.
   - rewrite isort_perm. apply Permutation_map. exact P.
 Qed.
 
+(* ---- the range of the specification is the one C09 proves for every store (Store/Spec.v in_range):
+        forwards  prefix++start <= key;  backwards  key <= prefix++start  or  key extends prefix++start ---- *)
+Definition ble (a b : bytes) : bool := match bcmp a b with Gt => false | _ => true end.
+
+Lemma prefix_le : forall p k, is_prefix p k = true -> ble p k = true.
+Proof.
+  unfold ble. induction p as [|x p IH]; intros [|y k]; simpl; try reflexivity; try discriminate.
+  intros H. apply andb_true_iff in H. destruct H as [E H]. apply N.eqb_eq in E. subst. rewrite N.compare_refl. auto.
+Qed.
+
+Theorem in_range_c09_form P S bw k :
+  in_range P S bw k =
+  is_prefix P k && (if bw then ble k (P ++ S) || is_prefix (P ++ S) k else ble (P ++ S) k).
+Proof.
+  unfold in_range. destruct (is_prefix P k) eqn:HP; [|reflexivity]. simpl.
+  destruct S as [|s0 S'].
+  - rewrite app_nil_r. destruct bw; [rewrite HP, orb_true_r; reflexivity|]. symmetry. apply prefix_le. exact HP.
+  - set (ps := P ++ s0 :: S'). unfold ble. destruct bw.
+    + destruct (bcmp k ps); reflexivity.
+    + rewrite (bcmp_opp k ps). destruct (bcmp k ps); reflexivity.
+Qed.
+
 (* ---- blocks ---- *)
 Definition storage_after (s : smap) (blocks : list (list change)) : smap :=
   fold_left (fun s ws => map_apply ws s) blocks s.
@@ -205,6 +227,14 @@ Section Interface.
     trie_run empty_trie bs t -> sm_get k (storage_after [] bs) <> Some v ->
     verify_proof (root t) k p = Some v -> Collision.
   Proof. intros R N V. destruct (proof_at_height_sound bs t k p v R V) as [G|C]; [contradiction|exact C]. Qed.
+  (* C10 C10_seek_spec (TrieStore.Seek = range query on the trie's entries, both directions, any prefix and start) *)
+  Variable seek : trie -> bytes -> bytes -> bool -> smap.
+  Hypothesis seek_spec : forall t P S bw, reachable t -> seek t P S bw = sm_range P S bw (content t).
+
+  (* a range search at root_h returns what the same range search on the contract storage of height h returns *)
+  Theorem seek_at_height bs t P S bw :
+    trie_run empty_trie bs t -> seek t P S bw = sm_range P S bw (storage_after [] bs).
+  Proof. intros R. rewrite (seek_spec t P S bw (ex_intro _ bs R)), (root_commits _ _ R). reflexivity. Qed.
 End Interface.
 
 (* ---- the interface is satisfiable: the trie whose state IS its content (degenerate proofs: the "proof" carries
